@@ -1,12 +1,21 @@
 (* C06 - rendering places every schema component where the documented rules say.
    Model: Model/Render.v (from_zerv.rs x2, presets.rs).  Spec: Spec/Placement.v. *)
-From ZV Require Import Str Zerv Render Placement RenderProofs.
+From ZV Require Import Str Zerv Render Placement RenderProofs PepPlacement.
 
 (* SemVer: the processing loops compute exactly the placement rule - first three integer-valued core
    components as major.minor.patch (missing ones 0), every other core and extra-core contribution in
    schema order as pre-release identifiers, build components as build metadata - for EVERY schema and vars *)
 Theorem c06_semver_refines : forall z, semver_of_zerv z = semver_placement z.
 Proof. exact semver_refines_placement. Qed.
+
+(* PEP 440: for every object whose schema passes the validation (each of epoch / pre-release / post / dev at most once in extra-core), the
+   processing loops compute exactly the declarative placement rule of Spec/Placement.v: integer-valued (u32) core components are the
+   release numbers in schema order ([0] if none); the four secondary variables set their field when they have a u32 value; every other
+   component contributes its local segments - core, then extra-core, then build, in schema order; then normal form *)
+Theorem c06_pep440_refines : forall z, schema_validate (z_schema z) = true -> pep_of_zerv z = Some (pep_placement z).
+Proof.
+  intros z H. apply pep_refines_placement. unfold schema_validate in H. rewrite !andb_true_iff in H. tauto.
+Qed.
 
 (* unset variables contribute nothing: deleting a component that resolves to nothing changes no SemVer rendering *)
 Theorem c06_unset_contributes_nothing : forall z c pre post, unset c (z_vars z) ->
@@ -40,3 +49,4 @@ Proof. vm_compute. reflexivity. Qed.
 Print Assumptions c06_semver_refines.
 Print Assumptions c06_unset_contributes_nothing.
 Print Assumptions c06_tier_noninterference.
+Print Assumptions c06_pep440_refines.
